@@ -1,0 +1,32 @@
+//go:build verif
+
+// Package verifx re-exports the witness implementation, which lives in a
+// package internal to cmd/witness, for the simulator hook package
+// verifhook/witnessx. Only compiled with the "verif" build tag.
+package verifx
+
+import (
+	"net/http"
+
+	ih "github.com/google/certificate-transparency-go/internal/witness/cmd/witness/internal/http"
+	"github.com/google/certificate-transparency-go/internal/witness/cmd/witness/internal/witness"
+	"github.com/gorilla/mux"
+)
+
+// Witness is the real witness.
+type Witness = witness.Witness
+
+// Opts are the real witness options.
+type Opts = witness.Opts
+
+// New creates a witness.
+func New(o Opts) (*Witness, error) { return witness.New(o) }
+
+// Handler returns the witness HTTP API exactly as impl.Main wires it.
+func Handler(w *Witness) http.Handler {
+	// These options are required as some logID values contain forward
+	// slashes, and will be PathUnescape-d later.
+	r := mux.NewRouter().UseEncodedPath()
+	ih.NewServer(w).RegisterHandlers(r)
+	return r
+}
